@@ -52,7 +52,8 @@ ASSUMPTIONS = ['instants and configured durations are multiples of 2^-10 s below
 
 TPS = 1 << 20
 GRID = 1 << 10
-ACTIONS = ['open', 'data', 'big', 'credit', 'recv', 'park', 'cancel', 'finish', 'reset', 'lose']
+ACTIONS = ['open', 'data', 'big', 'credit', 'recv', 'park', 'cancel', 'finish', 'reset', 'lose', 'pause',
+           'resume']
 
 logging.getLogger('grpclib').setLevel(logging.CRITICAL)
 logging.getLogger('asyncio').setLevel(logging.CRITICAL)
@@ -149,6 +150,7 @@ class Run:
         self.calls = []          # per call: dict(state, q, task, rec, sid)
         self.unhandled = []
         self.stalled = 0
+        self.paused = False
         self.ties = []           # for every instant with both timers due: did close run first?
         self.end = None
         self.notes = []
@@ -411,6 +413,21 @@ class Run:
             self.loop.run_quiet(0.0)
             self.emit(['L'])
             return
+        if action in ('pause', 'resume'):
+            # the transport's write buffer fills up / drains (asyncio calls pause_writing /
+            # resume_writing on the protocol): no keepalive variable is concerned, pings go on
+            if action == 'pause':
+                self.tr.pause()
+                self.paused = True
+            else:
+                self.tr.resume()
+                self.paused = False
+            self.settle()
+            frames = [e[0] for e in self.chron[c0:] if e[0] in ('H', 'D')]
+            self.emit(frames + self.sync_opens())
+            return
+        if getattr(self, 'paused', False) and action in ('open', 'data', 'big', 'finish', 'cancel'):
+            return          # the application would just wait for write_ready; keep the script simple
         if action == 'open':
             if len(alive) + len([c for c in self.calls if c['rec']['state'] == 'new']) >= 4:
                 return
@@ -933,7 +950,7 @@ def gen_case(rng, kind=None):
     traffic = []
     credit = True
     pattern = rng.choice(['idle', 'idle', 'one_call', 'streaming', 'download', 'download', 'duplex', 'bigsend',
-                          'bigsend', 'churn', 'churn'])
+                          'bigsend', 'paused', 'paused', 'churn', 'churn'])
     span = horizon - t0
     if pattern == 'one_call':
         traffic.append([t0 + rng.randint(0, 3) * GRID, 'open', 0])
@@ -958,6 +975,17 @@ def gen_case(rng, kind=None):
             send = pattern == 'duplex' and k % rng.choice([7, 11, 16]) == 0
             traffic.append([t, 'data' if send else 'recv', rng.randint(0, 4)])
             t += step
+    elif pattern == 'paused':
+        # a call in flight, then the transport pauses writing (the peer stopped reading) at some
+        # instant, possibly resuming later; keepalive must go on pinging and detecting all the while
+        traffic.append([t0 + rng.randint(0, 3) * GRID, 'open', 0])
+        if rng.random() < 0.5:
+            traffic.append([t0 + 4 * GRID, rng.choice(['park', 'data', 'recv']), 0])
+        tp = t0 + 5 * GRID + rng.randint(0, max(1, (periods - 1) * time_ // GRID)) * GRID
+        traffic.append([tp, 'pause', 0])
+        if rng.random() < 0.4:
+            traffic.append([tp + rng.randint(1, max(1, 3 * time_ // GRID)) * GRID, 'resume', 0])
+            traffic.append([tp + 4 * time_, rng.choice(['data', 'recv']), 0])
     elif pattern == 'bigsend':
         # a quiet open call (the ping budget gets used up), then payloads of several DATA frames; the
         # peer may return no credit, so that a payload stalls with part of its frames on the wire
@@ -974,7 +1002,7 @@ def gen_case(rng, kind=None):
         for _ in range(rng.randint(2, 14)):
             traffic.append([t0 + rng.randint(0, max(1, span // GRID)) * GRID,
                             rng.choice(['open', 'open', 'data', 'data', 'big', 'big', 'credit', 'recv', 'recv',
-                                        'recv', 'park', 'cancel', 'finish', 'reset']), rng.randint(0, 4)])
+                                        'recv', 'park', 'cancel', 'finish', 'reset', 'pause', 'resume']), rng.randint(0, 4)])
         # make coincidences with the timer grid frequent
         for _ in range(rng.randint(0, 3)):
             traffic.append([t0 + rng.randint(1, periods) * time_, rng.choice(['open', 'data', 'recv', 'reset']), 0])
@@ -1153,7 +1181,8 @@ def run(ctx):
                 '300 s; int and float spellings; 4% keepalive off) x peer (acks after delay < timeout, = timeout '
                 'before/after the timer, late, stops at T, never, acks older pings, mixed) x traffic (idle, one '
                 'call, streaming data between pings, multi-frame payloads that stall under flow control with part of their '
-                'DATA frames sent (peer returning no credit), receive-heavy downloads and duplex calls where the peer sends DATA '
+                'DATA frames sent (peer returning no credit), pause_writing/resume_writing at arbitrary instants with a call '
+                'in flight, receive-heavy downloads and duplex calls where the peer sends DATA '
                 'that the application reads, calls opening/closing/reset, traffic on timer instants, '
                 'connection loss) x start instant; finite horizon of 3..12 periods; every step compared with the '
                 'model (items P/S/X with instants + counter, open streams, both timers, last ping, closed); '
